@@ -7,6 +7,7 @@ import (
 	"fmt"
 	"io"
 	"sync"
+	"sync/atomic"
 
 	"github.com/NethermindEth/juno/db"
 	"github.com/bits-and-blooms/bitset"
@@ -27,24 +28,31 @@ type RunningEventFilter struct {
 	mu       sync.RWMutex
 	database db.KeyValueStore
 
-	initialize RunningEventFilterInitializer
-	initErr    error
-	lazyOnce   sync.Once
+	initialize  RunningEventFilterInitializer
+	initMu      sync.Mutex
+	initialized atomic.Bool
 }
 
+// ensureInit runs the lazy initializer until it has succeeded once. A failed attempt is
+// reported to the caller but not remembered: the initializer reads (and may write) the
+// database, and a transient error there must not disable the filter for the process lifetime.
 func (f *RunningEventFilter) ensureInit() error {
-	if f.initialize != nil {
-		f.lazyOnce.Do(func() {
-			filter, err := f.initialize(f.database)
-			if err != nil {
-				f.initErr = fmt.Errorf("couldn't initialize the running event filter: %w", err)
-				return
-			}
-			f.inner = filter.inner
-			f.next = filter.next
-		})
+	if f.initialize == nil || f.initialized.Load() {
+		return nil
 	}
-	return f.initErr
+	f.initMu.Lock()
+	defer f.initMu.Unlock()
+	if f.initialized.Load() {
+		return nil
+	}
+	filter, err := f.initialize(f.database)
+	if err != nil {
+		return fmt.Errorf("couldn't initialize the running event filter: %w", err)
+	}
+	f.inner = filter.inner
+	f.next = filter.next
+	f.initialized.Store(true)
+	return nil
 }
 
 // NewRunningEventFilterHot returns a RunningEventFilter that wraps the provided
@@ -288,8 +296,7 @@ func (f *RunningEventFilter) Invalidate() {
 	if f.initialize == nil {
 		return
 	}
-	f.lazyOnce = sync.Once{}
-	f.initErr = nil
+	f.initialized.Store(false)
 	f.inner = nil
 	f.next = 0
 }
@@ -463,9 +470,8 @@ func (f *RunningEventFilter) UnmarshalBinary(data []byte) error {
 		return fmt.Errorf("read next block: %w", err)
 	}
 
-	f.initErr = nil
 	f.mu = sync.RWMutex{}
-	f.lazyOnce = sync.Once{}
+	f.initialized.Store(false)
 	f.initialize = nil
 
 	return nil
